@@ -3,6 +3,7 @@ package main
 import (
 	"bytes"
 	"fmt"
+	"github.com/dsnet/compress/xflate/verifharness/ref"
 
 	"github.com/dsnet/compress/xflate/verifharness/gen"
 	"github.com/dsnet/compress/xflate/verifharness/vhlib"
@@ -154,9 +155,34 @@ func runC11(r *vhlib.Run) {
 				byteOnly = sk
 			}
 		}
-		for i := 0; i < nbr; i++ {
+		nrep := nbr
+		if c.Name == "flate" {
+			nrep = 3 * nbr
+		}
+		for i := 0; i < nrep; i++ {
 			s := c.Valid(rng, 12000)
+			if c.Name == "flate" && i%3 != 0 {
+				// very low entropy compressed hard (zlib level 9, whole input in one go): dynamic
+				// blocks whose distance code and end-of-block code are one or two bits long and
+				// whose last match sits a few bits before the end of the stream
+				var plain []byte
+				switch rng.Intn(3) {
+				case 0:
+					plain = bytes.Repeat([]byte{byte(rng.Intn(256))}, 2000+rng.Intn(10000))
+				case 1:
+					plain = bytes.Repeat([]byte{byte(rng.Intn(256)), byte(rng.Intn(256))}, 1000+rng.Intn(5000))
+				default:
+					plain = bytes.Repeat([]byte{0}, 258*(1+rng.Intn(20))+rng.Intn(258))
+					plain = append(plain, byte(1+rng.Intn(255)))
+					plain = append(plain, bytes.Repeat([]byte{0}, rng.Intn(3000))...)
+				}
+				s.Plain = plain
+				s.Data = ref.ZDeflate([]ref.ZOp{{Data: plain, Flush: 4}}, 9, 15, 8+rng.Intn(2), 0)
+			}
 			trailer := vhlib.RandBytes(rng, rng.Intn(9))
+			if len(trailer) == 0 && i%3 != 0 {
+				trailer = []byte{byte(1 + rng.Intn(255))}
+			}
 			if c.Multi {
 				trailer = nil
 			}
